@@ -41,7 +41,110 @@ func (w *World) calleeName(c ssa.CallInstruction) string {
 		}
 		return fn.String()
 	}
+	// a call through a struct field or a package variable that is bound, everywhere in the package, to one and the same
+	// function (an injected clock `now: time.Now`, `var dialTCP = net.DialTCP`): the call is a call of that function
+	if fn := w.boundFunc(cc.Value); fn != nil {
+		if w.isMain(fn) {
+			return w.fname(fn)
+		}
+		return fn.String()
+	}
 	return "dyn"
+}
+
+// boundFunc: v loads a func-typed field or package variable whose every store in the package has the same function as
+// value - directly, or as a parameter that receives that function at every call site of the storing function.
+func (w *World) boundFunc(v ssa.Value) *ssa.Function {
+	u, ok := v.(*ssa.UnOp)
+	if !ok || u.Op != token.MUL {
+		return nil
+	}
+	var key interface{}
+	switch a := u.X.(type) {
+	case *ssa.FieldAddr:
+		if fv := fieldVarOf(a); fv != nil {
+			key = fv
+		}
+	case *ssa.Global:
+		if a.Pkg == w.Main {
+			key = a
+		}
+	}
+	if key == nil {
+		return nil
+	}
+	if w.funcBindings == nil {
+		w.funcBindings = map[interface{}][]ssa.Value{}
+		for _, fn := range w.All {
+			eachInstr(fn, func(in ssa.Instruction) {
+				st, ok := in.(*ssa.Store)
+				if !ok {
+					return
+				}
+				if _, isSig := st.Val.Type().Underlying().(*types.Signature); !isSig {
+					return
+				}
+				switch a := st.Addr.(type) {
+				case *ssa.FieldAddr:
+					if fv := fieldVarOf(a); fv != nil {
+						w.funcBindings[fv] = append(w.funcBindings[fv], st.Val)
+					}
+				case *ssa.Global:
+					w.funcBindings[a] = append(w.funcBindings[a], st.Val)
+				}
+			})
+		}
+	}
+	var resolve func(x ssa.Value, d int) *ssa.Function
+	resolve = func(x ssa.Value, d int) *ssa.Function {
+		switch y := x.(type) {
+		case *ssa.Function:
+			return y
+		case *ssa.ChangeType:
+			return resolve(y.X, d)
+		case *ssa.Parameter:
+			if d > 2 {
+				return nil
+			}
+			pf := y.Parent()
+			idx := -1
+			for i, p := range pf.Params {
+				if p == y {
+					idx = i
+				}
+			}
+			node := w.CG.Nodes[pf]
+			if idx < 0 || node == nil || len(node.In) == 0 {
+				return nil
+			}
+			var one *ssa.Function
+			for _, e := range node.In {
+				if e.Site == nil || e.Site.Common().StaticCallee() != pf || idx >= len(e.Site.Common().Args) {
+					return nil
+				}
+				f := resolve(e.Site.Common().Args[idx], d+1)
+				if f == nil || (one != nil && one != f) {
+					return nil
+				}
+				one = f
+			}
+			return one
+		}
+		return nil
+	}
+	var one *ssa.Function
+	vals := w.funcBindings[key]
+	if len(vals) == 0 {
+		return nil
+	}
+	for _, x := range vals {
+		f := resolve(x, 0)
+		if f == nil || (one != nil && one != f) {
+			return nil
+		}
+		one = f
+	}
+	return one
 }
 
 // callInstr is any instruction that performs a call (Call, Go, Defer).
